@@ -147,6 +147,7 @@ _re_range = r"""
                 (?>
                     (?!\$*:)\$?(?P<c1>[A-Z]{1,3})?\$?(?P<r1>[1-9]\d*)?
                     (?>:\$?(?P<c2>[A-Z]{1,3}))(\$?(?P<r2>[1-9]\d*))?
+                    (?![_\.\w])
                 )
             |
                 \$?(?P<c1>[A-Z]{1,3})\$?(?P<r1>[1-9]\d*)(?P<anchor>\#)?
